@@ -336,6 +336,9 @@ func SetIf(cond bool, f func()) {
 
 func BytesEq(a, b []byte) bool { return string(a) == string(b) }
 
+// BytesLess is the lexicographic a < b.
+func BytesLess(a, b []byte) bool { return string(a) < string(b) }
+
 // IteU64 selects a or b without branching under the symbolic executor.
 func IteU64(c bool, a, b uint64) uint64 {
 	if c {
